@@ -45,6 +45,7 @@ type Obligation struct {
 // Ctx is the loaded program plus the obligations collected so far.
 type Ctx struct {
 	aliasNoted    map[*ssa.Function]bool
+	limitSources  []*ssa.Call // scratch of rule P6c
 	csIdx         *callSiteIdx
 	anchors       map[string]string
 	anchorsLoaded bool
